@@ -1,1 +1,122 @@
+// Kani harnesses for C04 (heap selection), child module of src/algorithm/sort/heap_select.rs.
+//
+// HeapSelection::sort is `self.sorted = true; self.heap.sort_by(|a, b| b.partial_cmp(a).unwrap())` and HeapSelection::peek
+// uses `max_by` with a closure: both outside the Verus subset.  The Verus unit specs/C04/heap_select.rs verifies `add`
+// against the ASSUMED contract A-HEAPSELECT-SORT, stated there as
+//     requires total_on(old(self).heap values)
+//     ensures  final.sorted, final.heap is a permutation (equal multisets, equal length) of old.heap,
+//              forall i <= j: ge(final.heap[i], final.heap[j])  (descending),  final.k == old.k, final.n == old.n
+// This module discharges exactly that contract for every heap of length <= 4, and the obligation "peek returns a maximum".
+//
+// Elements are `Tagged { key, tag }` ordered and compared by `key` only (as KNNPoint is by distance); keys are arbitrary
+// non-NaN f64 (sort and peek only compare and move), the tag is the original position, so "permutation" is checked
+// exactly: the tags of the result are pairwise different and every element still carries the key it started with.
 use super::*;
+
+#[derive(Debug, Clone, Copy)]
+struct Tagged {
+    key: f64,
+    tag: usize,
+}
+
+impl PartialOrd for Tagged {
+    fn partial_cmp(&self, other: &Self) -> Option<Ordering> {
+        self.key.partial_cmp(&other.key)
+    }
+}
+
+impl PartialEq for Tagged {
+    fn eq(&self, other: &Self) -> bool {
+        self.key == other.key
+    }
+}
+
+fn any_ordered() -> f64 {
+    let v: f64 = kani::any();
+    kani::assume(v == v); // total_on: no NaN
+    v
+}
+
+fn any_heap<const K: usize>(keys: &mut [f64; K]) -> Vec<Tagged> {
+    let mut heap: Vec<Tagged> = Vec::with_capacity(K);
+    for i in 0..K {
+        keys[i] = any_ordered();
+        heap.push(Tagged { key: keys[i], tag: i });
+    }
+    heap
+}
+
+macro_rules! h_sort {
+    ($name:ident, $k:expr, $unw:expr) => {
+        #[kani::proof]
+        #[kani::unwind($unw)]
+        fn $name() {
+            const K: usize = $k;
+            let mut keys = [0.0f64; K];
+            let heap = any_heap::<K>(&mut keys);
+            // the contract relates no field to another: k, n and the old flag are arbitrary
+            let k0: usize = kani::any();
+            let n0: usize = kani::any();
+            let sorted0: bool = kani::any();
+            let mut h = HeapSelection { k: k0, n: n0, sorted: sorted0, heap };
+            h.sort();
+            assert!(h.sorted, "HeapSelection::sort: sets the sorted flag");
+            assert!(h.k == k0 && h.n == n0, "HeapSelection::sort: k and n are unchanged");
+            assert!(h.heap.len() == K, "HeapSelection::sort: the heap keeps its length");
+            let mut seen = [false; K];
+            for i in 0..K {
+                let e = h.heap[i];
+                assert!(e.tag < K && !seen[e.tag], "HeapSelection::sort: the heap afterwards is a permutation of the heap before (every element exactly once)");
+                seen[e.tag] = true;
+                assert!(e.key.to_bits() == keys[e.tag].to_bits(), "HeapSelection::sort: elements are moved, not altered");
+            }
+            for i in 0..K {
+                for j in i..K {
+                    assert!(h.heap[i].key >= h.heap[j].key, "HeapSelection::sort: the heap afterwards is in descending order (heap[i] >= heap[j] for i <= j)");
+                }
+            }
+            kani::cover!(h.heap[0].tag == K - 1 && h.heap[K - 1].tag == 0);
+        }
+    };
+}
+h_sort!(c04_heap_sort_k1, 1, 8);
+h_sort!(c04_heap_sort_k2, 2, 8);
+h_sort!(c04_heap_sort_k3, 3, 8);
+h_sort!(c04_heap_sort_k4, 4, 8);
+
+// peek on a heap that is not flagged sorted (any arrangement), and on a heap that `sort` has just sorted
+macro_rules! h_peek {
+    ($name:ident, $k:expr, $unw:expr) => {
+        #[kani::proof]
+        #[kani::unwind($unw)]
+        fn $name() {
+            const K: usize = $k;
+            let mut keys = [0.0f64; K];
+            let heap = any_heap::<K>(&mut keys);
+            let k0: usize = kani::any();
+            let n0: usize = kani::any();
+            let mut h = HeapSelection { k: k0, n: n0, sorted: false, heap };
+            {
+                let p = h.peek();
+                assert!(p.tag < K && p.key.to_bits() == keys[p.tag].to_bits(), "HeapSelection::peek: returns an element of the heap");
+                for i in 0..K {
+                    assert!(keys[i] <= p.key, "HeapSelection::peek: returns a maximum of the heap (not flagged sorted: any arrangement)");
+                }
+                kani::cover!(p.tag == K - 1);
+            }
+            h.sort();
+            {
+                let p = h.peek();
+                assert!(p.tag < K && p.key.to_bits() == keys[p.tag].to_bits(), "HeapSelection::peek: returns an element of the heap (after sort)");
+                for i in 0..K {
+                    assert!(keys[i] <= p.key, "HeapSelection::peek: returns a maximum of the heap (flagged sorted by sort)");
+                }
+                kani::cover!(p.tag == K - 1);
+            }
+        }
+    };
+}
+h_peek!(c04_heap_peek_k1, 1, 8);
+h_peek!(c04_heap_peek_k2, 2, 8);
+h_peek!(c04_heap_peek_k3, 3, 8);
+h_peek!(c04_heap_peek_k4, 4, 8);
